@@ -109,7 +109,14 @@ func c06ParseOp(t []string) (*proto.RaftLog, error) {
 		if err != nil {
 			return nil, bad
 		}
-		st := &proto.Stream{Name: t[1], Subject: t[2], CreationTimestamp: ct}
+		// every stream carries a custom configuration derived from its name and creation time: what a
+		// restart or an installed snapshot must bring back (see the `cfgs` op)
+		st := &proto.Stream{Name: t[1], Subject: t[2], CreationTimestamp: ct, Config: &proto.StreamConfig{
+			OptimisticConcurrencyControl: &proto.NullableBool{Value: len(t[1])%2 == 1},
+			RetentionMaxMessages:         &proto.NullableInt64{Value: 1000 + ct%97},
+			MinIsr:                       &proto.NullableInt32{Value: int32(1 + len(t[2])%2)},
+			CompactEnabled:               &proto.NullableBool{Value: ct%2 == 0},
+		}}
 		if t[4] != "-" {
 			for _, ps := range strings.Split(t[4], ";") {
 				f := strings.Split(ps, "/")
@@ -698,6 +705,20 @@ func (v *c06Impl) exec(line string) (out string) {
 		}
 		v.snap, v.hasSnap = b, true
 		return "ok"
+	case "cfgs": // implementation only: the configuration of every (not tombstoned) stream, as the store holds it
+		var l []string
+		for _, st := range v.s.metadata.GetStreams() {
+			if st.IsTombstoned() {
+				continue
+			}
+			c := "<nil>"
+			if cfg := st.GetConfig(); cfg != nil {
+				c = cfg.String()
+			}
+			l = append(l, st.GetName()+"={"+c+"}")
+		}
+		sort.Strings(l)
+		return "ok " + strings.Join(l, " ")
 	case "gstate": // implementation only: the consumer groups with assignments and load counters
 		return "ok " + v.gstate()
 	case "snaptake": // implementation only: Snapshot() now, Persist() later while applies continue
@@ -1370,6 +1391,7 @@ func (cx *c06Ctx) judge(ops []string, splits [][2]int, scratch bool, bucket stri
 	}
 	liveObs := outA[len(outA)-1]
 	liveNames := c06StreamNames(liveObs)
+	liveCfgs := cx.a.exec("c06 cfgs")
 	cx.torn(ops, cx.tornPairs, liveObs)
 	cx.tornPairs = nil
 	for _, kj := range splits {
@@ -1400,6 +1422,12 @@ func (cx *c06Ctx) judge(ops []string, splits [][2]int, scratch bool, bucket stri
 			continue
 		}
 		final := out[len(out)-1]
+		// the stream configurations (concurrency control, retention, min ISR, compaction, ...) are metadata
+		// too: a restarted server must hold for every stream the configuration it was created with
+		if cfgs := cx.a.exec("c06 cfgs"); final == liveObs && cfgs != liveCfgs {
+			cx.spec(prog, "replay-stream-config-differs", fmt.Sprintf("snapshot after %d ops, %d ops replayed: the stream configurations after the restart differ from the live server's", k, n-k),
+				[]string{cfgs}, []string{liveCfgs})
+		}
 		if final != liveObs {
 			tag := c06Classify(liveObs, final)
 			cx.spec(prog, tag, fmt.Sprintf("snapshot after %d ops, crash after %d, %d ops replayed: observable metadata after the restart differs from the live server", k, j, n-k),
